@@ -42,7 +42,7 @@ def experiment(g, cmd, point, errno_kind, flags=(), seed=0):
         desc.append("-> rc=%s fault=%s@%s io=%s" % (r.rc, kind, pos, rec.lines[-1]["out"]["io"]))
         c.clock += 10
         # repair path promised by the property: fix -e (bad blocks) or the next sync
-        r2, out = rec.fix("-e"); desc.append("fix -e -> %s" % out["exit"])
+        r2, out = rec.fix(filt={"bad": "file"}); desc.append("fix -e -> %s" % out["exit"])
         r3, out = rec.sync(); desc.append("sync -> %s" % out["exit"])
         r4, out = rec.check(); desc.append("check -> %s" % out["exit"])
         return rec, desc, kind, pos
